@@ -609,19 +609,29 @@ func existsPredicate(fn *ssa.Function) *existsSummary {
 			case *ssa.UnOp:
 				ia, _ = e.X.(*ssa.IndexAddr)
 			}
-			if ia == nil {
+			var coll ssa.Value
+			if ia != nil {
+				coll = ia.X
+			} else if b, f, ok := fieldLoad(pr[0]); ok {
+				// an entry of a map that is being ranged over: m[k] with k the
+				// range key, or the range value itself
+				if m := rangedMapEntry(b); m != nil {
+					coll, fld = m, f
+				}
+			}
+			if coll == nil {
 				continue
 			}
 			s := &existsSummary{nameParam: np, collParam: -1, elemField: fld, eq: bo}
-			if cp, ok := ia.X.(*ssa.Parameter); ok {
+			if cp, ok := coll.(*ssa.Parameter); ok {
 				for i, q := range fn.Params {
 					if q == cp {
 						s.collParam = i
 					}
 				}
-			} else if _, f, ok := fieldLoad(ia.X); ok {
+			} else if _, f, ok := fieldLoad(coll); ok {
 				s.collField = f
-			} else if c, _ := callOf(ia.X); c != nil && c.Common().StaticCallee() != nil {
+			} else if c, _ := callOf(coll); c != nil && c.Common().StaticCallee() != nil {
 				// the list is computed by a function of the package (e.g. fields())
 				s.collField = "call:" + funcName(c.Common().StaticCallee())
 			} else {
@@ -734,4 +744,48 @@ func originsDeep(v ssa.Value) []ssa.Value {
 	}
 	walk(v, 0)
 	return out
+}
+
+// rangedMapEntry: v is an entry of a map under a range loop over that map -
+// m[k] with k the key handed out by the range, or the value handed out by the
+// range. It returns the map (nil otherwise).
+func rangedMapEntry(v ssa.Value) ssa.Value {
+	rangeOf := func(x ssa.Value, idx int) ssa.Value {
+		ex, ok := x.(*ssa.Extract)
+		if !ok || ex.Index != idx {
+			return nil
+		}
+		nx, ok := ex.Tuple.(*ssa.Next)
+		if !ok {
+			return nil
+		}
+		rg, ok := nx.Iter.(*ssa.Range)
+		if !ok {
+			return nil
+		}
+		if _, isMap := rg.X.Type().Underlying().(*types.Map); !isMap {
+			return nil
+		}
+		return rg.X
+	}
+	if m := rangeOf(v, 2); m != nil {
+		return m
+	}
+	lk, ok := v.(*ssa.Lookup)
+	if !ok {
+		return nil
+	}
+	m := rangeOf(lk.Index, 1)
+	if m == nil {
+		return nil
+	}
+	if m == lk.X {
+		return m
+	}
+	b1, f1, ok1 := fieldLoad(m)
+	b2, f2, ok2 := fieldLoad(lk.X)
+	if ok1 && ok2 && f1 == f2 && b1 == b2 {
+		return m
+	}
+	return nil
 }
